@@ -4,7 +4,7 @@
 patch=$1; c=$2; tier=${3:-quick}
 wt=/tmp/mut/cur
 git -C $wt checkout -q --detach $(git -C /repo rev-parse HEAD) && git -C $wt checkout -q -- . && git -C $wt apply $patch || { echo "PATCH FAILED"; exit 3; }
-VERIF_REPO=$wt /verif/check $c $tier > /var/tmp/mutrun.$$.log 2>&1; rc=$?
+mkdir -p /var/tmp/mut-evidence/replay; VERIF_EVIDENCE_DIR=/var/tmp/mut-evidence VERIF_REPO=$wt /verif/check $c $tier > /var/tmp/mutrun.$$.log 2>&1; rc=$?
 grep -c "^VIOLATION" /var/tmp/mutrun.$$.log | sed "s/^/violations: /"
 grep "^VIOLATION" /var/tmp/mutrun.$$.log | head -${MUTSHOW:-3} | cut -c1-${MUTW:-260}
 tail -1 /var/tmp/mutrun.$$.log | cut -c1-200
